@@ -13,7 +13,6 @@ package centrifuge
 import (
 	"context"
 	"fmt"
-	"os"
 	"sort"
 	"strconv"
 	"strings"
@@ -85,7 +84,34 @@ func (t *verifCmdTransport) take(id uint32) *protocol.Reply {
 	return found
 }
 
+// verifCmdGatedBroker is the node's MemoryBroker with a gate in History: when armed, the next
+// History call parks inside the broker until released, so that a second history call for the
+// same channel can be made to overlap it deterministically (single-flight sharing).
+type verifCmdGatedBroker struct {
+	*MemoryBroker
+	mu      sync.Mutex
+	armed   bool
+	entered bool
+	release chan struct{}
+}
+
+func (b *verifCmdGatedBroker) History(ch string, opts HistoryOptions) ([]*Publication, StreamPosition, error) {
+	b.mu.Lock()
+	var rel chan struct{}
+	if b.armed {
+		b.armed = false
+		b.entered = true
+		rel = b.release
+	}
+	b.mu.Unlock()
+	if rel != nil {
+		<-rel
+	}
+	return b.MemoryBroker.History(ch, opts)
+}
+
 type verifCmdEnv struct {
+	gb     *verifCmdGatedBroker
 	node   *Node
 	client *Client
 	tr     *verifCmdTransport
@@ -93,6 +119,8 @@ type verifCmdEnv struct {
 	ep     *verifHistEpochs
 	start  time.Time
 	nextID uint32
+	// when set, called while the current client command is in flight (releases the gate)
+	overlap func()
 }
 
 func (env *verifCmdEnv) sleepUntil(at time.Duration) {
@@ -120,16 +148,20 @@ func (env *verifCmdEnv) command(cmd *protocol.Command) (*protocol.Reply, string)
 	if closed {
 		return nil, "closed"
 	}
-	okc := env.client.HandleCommand(cmd, 0)
-	synctest.Wait()
-	if os.Getenv("VERIF_DEBUG") != "" {
-		env.tr.mu.Lock()
-		fmt.Fprintf(os.Stderr, "DEBUG cmd=%v ok=%v frames=%d closed=%v\n", cmd, okc, len(env.tr.frames), env.tr.closed)
-		for _, f := range env.tr.frames {
-			fmt.Fprintf(os.Stderr, "  frame %x\n", f)
-		}
-		env.tr.mu.Unlock()
+	if env.overlap != nil {
+		// run the command while a node-level history call is parked inside the broker
+		done := make(chan struct{})
+		go func() {
+			env.client.HandleCommand(cmd, 0)
+			close(done)
+		}()
+		synctest.Wait()
+		env.overlap()
+		<-done
+	} else {
+		env.client.HandleCommand(cmd, 0)
 	}
+	synctest.Wait()
 	rep := env.tr.take(cmd.Id)
 	env.tr.mu.Lock()
 	disc := env.tr.disc
@@ -218,7 +250,7 @@ func (env *verifCmdEnv) step(line string) (res string) {
 			return verifCmdErr(err)
 		}
 		return fmt.Sprintf("off=%d ep=%d", r.Offset, env.ep.canon(r.Epoch))
-	case "hist", "nodehist":
+	case "hist", "nodehist", "ohist":
 		if len(ws) < 2 {
 			return "bad-op"
 		}
@@ -228,6 +260,56 @@ func (env *verifCmdEnv) step(line string) (res string) {
 			return "bad-op"
 		}
 		env.sleepUntil(at)
+		bg := ""
+		if ws[0] == "ohist" {
+			// overlapped history: a node-level History(ch, same since/reverse, limit=nodelimit) is
+			// started first and parks inside the broker; the client command runs while it is parked.
+			nlS, okn := verifHistKV(ws[2:], "nodelimit")
+			nl, errn := strconv.Atoi(nlS)
+			if !okn || errn != nil {
+				return "bad-op"
+			}
+			type bgRes struct {
+				r   HistoryResult
+				err error
+			}
+			bgDone := make(chan bgRes, 1)
+			env.gb.mu.Lock()
+			env.gb.armed, env.gb.entered = true, false
+			env.gb.release = make(chan struct{})
+			rel := env.gb.release
+			env.gb.mu.Unlock()
+			go func() {
+				r, err := env.node.History(ws[1], WithHistoryFilter(HistoryFilter{Since: since, Limit: nl, Reverse: rev}))
+				bgDone <- bgRes{r, err}
+			}()
+			synctest.Wait()
+			released := false
+			env.overlap = func() {
+				if !released {
+					released = true
+					close(rel)
+				}
+			}
+			defer func() {
+				env.overlap = nil
+			}()
+			collect := func() string {
+				env.overlap()
+				env.gb.mu.Lock()
+				env.gb.armed = false
+				env.gb.mu.Unlock()
+				b := <-bgDone
+				if b.err != nil {
+					return " bg=" + verifCmdErr(b.err)
+				}
+				return fmt.Sprintf(" bg=ok:%d", len(b.r.Publications))
+			}
+			defer func() {
+				res += collect()
+			}()
+		}
+		_ = bg
 		if ws[0] == "nodehist" {
 			r, err := env.node.History(ws[1], WithHistoryFilter(HistoryFilter{Since: since, Limit: int(lim), Reverse: rev}))
 			if err != nil {
@@ -340,6 +422,7 @@ func verifCmdScenario(t *testing.T, lines []string) []string {
 	maxS, ok1 := verifHistKV(ws[1:], "max")
 	meta, ok2 := verifHistUint(ws[1:], "meta")
 	hh, ok3 := verifHistUint(ws[1:], "hh")
+	sf, _ := verifHistUint(ws[1:], "sf") // optional: Config.UseSingleFlight
 	maxLimit, err := strconv.Atoi(maxS)
 	if !(ok1 && ok2 && ok3) || err != nil {
 		for range lines {
@@ -353,10 +436,17 @@ func verifCmdScenario(t *testing.T, lines []string) []string {
 			LogLevel:                   LogLevelNone,
 			HistoryMetaTTL:             time.Duration(meta) * time.Millisecond,
 			HistoryMaxPublicationLimit: maxLimit,
+			UseSingleFlight:            sf != 0,
 		})
 		if err != nil {
 			t.Fatal(err)
 		}
+		mb, err := NewMemoryBroker(node, MemoryBrokerConfig{})
+		if err != nil {
+			t.Fatal(err)
+		}
+		gb := &verifCmdGatedBroker{MemoryBroker: mb}
+		node.SetBroker(gb)
 		pm, err := NewMemoryPresenceManager(node, MemoryPresenceManagerConfig{})
 		if err != nil {
 			t.Fatal(err)
@@ -378,7 +468,7 @@ func verifCmdScenario(t *testing.T, lines []string) []string {
 		if err != nil {
 			t.Fatal(err)
 		}
-		env := &verifCmdEnv{node: node, client: client, tr: tr, pm: pm, start: start,
+		env := &verifCmdEnv{node: node, client: client, tr: tr, pm: pm, gb: gb, start: start,
 			ep: &verifHistEpochs{idx: map[string]int{}}}
 		_, cres := env.command(&protocol.Command{Connect: &protocol.ConnectRequest{}})
 		if cres != "" {
